@@ -4,7 +4,8 @@
 (*   ack: succeed / fail / negotiate        msg: enc4 / enc3 / other                                  *)
 (*   fmt: 3ok / 2 / 4 (columns) / badtype (cipher suite not INT4) / vbnonce (nonce VARBINARY)         *)
 (*   params: good / notpem / notpkcs1 / trailing / emptykey (key of length 0) / wskey (white space and NUL only) /                       *)
-(*           pkixec / pkixed (a PKIX ECDSA / Ed25519 public key) / cipher2 / cipher3 / cipher257 / cipherneg *)
+(*           pkixec / pkixed (a PKIX ECDSA / Ed25519 public key) / smallkey (a good key that is too small  *)
+(*           for this nonce plus the 32-byte session key) / cipher2 / cipher3 / cipher257 / cipherneg   *)
 (*           (cipher suite 2, 3, 257, -1 instead of 1)                      done: final / more         *)
 (*   caps: normal / subset (another non-zero answer) / zero (all-zero masks) / emptyres, emptyreq      *)
 (*         (the response / request block has a mask of length 0)                                        *)
@@ -23,7 +24,7 @@ ValidEnc == <<P("ack", "negotiate"), P("msg", "enc4"), P("fmt", "3ok"), P("param
 Attrs(t) == CASE t = "ack" -> {"succeed", "fail", "negotiate"}
               [] t = "msg" -> {"enc4", "enc3", "other"}
               [] t = "fmt" -> {"3ok", "2", "4", "badtype", "vbnonce"}
-              [] t = "params" -> {"good", "notpem", "notpkcs1", "trailing", "emptykey", "wskey", "pkixec", "pkixed", "cipher2", "cipher3", "cipher257", "cipherneg"}
+              [] t = "params" -> {"good", "notpem", "notpkcs1", "trailing", "emptykey", "wskey", "pkixec", "pkixed", "smallkey", "cipher2", "cipher3", "cipher257", "cipherneg"}
               [] t = "done" -> {"final", "more"}
               [] t = "caps" -> {"normal", "subset", "zero", "emptyres", "emptyreq"}
               [] t = "eed" -> {"info", "err"}
